@@ -242,19 +242,20 @@ def run(P: Program, rep: Report):
     def builders(it):
         F = lambda k="fk", v="fv", l=5: new_obj(it, P, "model", "Field", key=k, value=v, start_line=l)
         base = {
-            "Field": (lambda **o: F(**o), {"k": "fk", "v": "fv", "l": 5}, [{"k": "other"}, {"v": "other"}, {"l": 6}, {"v": 7}]),
+            "Field": (lambda **o: F(**o), {"k": "fk", "v": "fv", "l": 5}, [{"k": "other"}, {"v": "other"}, {"l": 6}, {"v": 7}, {"l": None}, {"l": 0}]),
             "Entry": (lambda **o: new_obj(it, P, "model", "Entry", entry_type=o["t"], key=o["k"], fields=AList([F(*f) for f in o["f"]]), start_line=o["l"], raw=o["r"]),
                       {"t": "article", "k": "key", "f": [("a", "1", 1), ("b", "2", 2)], "l": 0, "r": "raw"},
                       [{"t": "book"}, {"k": "key2"}, {"f": [("a", "1", 1)]}, {"f": [("b", "2", 2), ("a", "1", 1)]}, {"f": [("a", "x", 1), ("b", "2", 2)]},
-                       {"f": [("a", "1", 9), ("b", "2", 2)]}, {"l": 1}, {"r": "raw2"}]),
+                       {"f": [("a", "1", 9), ("b", "2", 2)]}, {"f": [("a", "1", None), ("b", "2", 2)]}, {"f": [("a", "1", 1), ("b", "2", None)]},
+                       {"l": 1}, {"l": None}, {"r": "raw2"}, {"r": None}]),
             "String": (lambda **o: new_obj(it, P, "model", "String", key=o["k"], value=o["v"], start_line=o["l"], raw=o["r"]),
-                       {"k": "s", "v": "val", "l": 0, "r": "raw"}, [{"k": "s2"}, {"v": "val2"}, {"l": 1}, {"r": "raw2"}]),
+                       {"k": "s", "v": "val", "l": 0, "r": "raw"}, [{"k": "s2"}, {"v": "val2"}, {"l": 1}, {"l": None}, {"r": "raw2"}, {"r": None}]),
             "Preamble": (lambda **o: new_obj(it, P, "model", "Preamble", value=o["v"], start_line=o["l"], raw=o["r"]),
-                         {"v": "val", "l": 0, "r": "raw"}, [{"v": "val2"}, {"l": 1}, {"r": "raw2"}]),
+                         {"v": "val", "l": 0, "r": "raw"}, [{"v": "val2"}, {"l": 1}, {"l": None}, {"r": "raw2"}, {"r": None}]),
             "ExplicitComment": (lambda **o: new_obj(it, P, "model", "ExplicitComment", comment=o["v"], start_line=o["l"], raw=o["r"]),
-                                {"v": "c", "l": 0, "r": "raw"}, [{"v": "c2"}, {"l": 1}, {"r": "raw2"}]),
+                                {"v": "c", "l": 0, "r": "raw"}, [{"v": "c2"}, {"l": 1}, {"l": None}, {"r": "raw2"}, {"r": None}]),
             "ImplicitComment": (lambda **o: new_obj(it, P, "model", "ImplicitComment", comment=o["v"], start_line=o["l"], raw=o["r"]),
-                                {"v": "c", "l": 0, "r": "raw"}, [{"v": "c2"}, {"l": 1}, {"r": "raw2"}]),
+                                {"v": "c", "l": 0, "r": "raw"}, [{"v": "c2"}, {"l": 1}, {"l": None}, {"r": "raw2"}, {"r": None}]),
         }
         return base
     n_eq = 0
